@@ -655,6 +655,29 @@ def build_alphabet():
              [["bem", ["d", "c", 1, tr], ["file", "bme" + v], None]], "beam", core)
     for i, o in enumerate(ops):
         o["i"] = i
+    # "repeat + new": a multi-group update whose FIRST group repeats exactly (same payload, same numbers) what an
+    # earlier add of the same key stores, followed by groups carrying new data - an update function that skips work
+    # for unchanged content must still write the rest of the call
+    import copy as _copy
+    first_add = {}
+    for o in ops:
+        if o["mode"] == "add" and o["valid"] and len(o["items"]) == 1:
+            it = o["items"][0]
+            first_add.setdefault((it[0], repr(it[1]), it[3]), it[2])
+    for o in list(ops):
+        if o["mode"] == "upd" and o["valid"] and o["icls"] == "multi-file":
+            it0 = o["items"][0]
+            pay = first_add.get((it0[0], repr(it0[1]), it0[3]))
+            if pay is None:
+                continue
+            c = _copy.deepcopy(o)
+            c["items"][0][2] = list(pay)
+            for it in c["items"][1:]:
+                it[2] = P(it[2][0])
+            c["icls"] = "repeat+new"
+            c["core"] = True
+            c["i"] = len(ops)
+            ops.append(c)
     return ops
 
 
